@@ -43,7 +43,7 @@ def main():
     if only:
         idx = [n for n in idx if any(o in n for o in only)]
     bad = 0
-    with cf.ThreadPoolExecutor(max_workers=2) as ex:
+    with cf.ThreadPoolExecutor(max_workers=int(os.environ.get("BENIGN_WORKERS", "2"))) as ex:
         for name, suite, res in ex.map(lambda n: one(n, [c for c in checks if c not in meta[n].get("exclude", [])]), idx):
             alarms = {c: r for c, r in res.items() if r[0] != 0}
             print("%-36s suite=[%s] alarms=%s" % (name, suite, alarms if alarms else "none"), flush=True)
